@@ -61,12 +61,18 @@ def progToks (m : PModel) : List Tok :=
     ++ ((if m.constants.isEmpty then [] else .word "where" :: .nl :: constsToks m.constants)
     ++ (if m.domains.isEmpty then [] else .word "define" :: .nl :: domainsToks m.domains)))
 
+/-- the text does not begin with a word that reads `for` in some letter case (`^"for"`: it would be taken for the
+iteration of the constraint / declaration before it) -/
+def notForHead : List Tok → Bool
+  | .word w :: _ => lowerWord w != "for"
+  | _ => true
+
 def coreName : CName → Bool
   | .plain n => plainVar n
   | .compound n idx => isPlainRun n.toList && !idx.isEmpty && coreIdx idx
 
 def coreFor (vs : List IterVar) (its : List PExp) : Bool :=
-  vs.length == its.length && vs.all printableIterVar && coreIters its
+  (vs.isEmpty && its.isEmpty) || (vs.length == its.length && vs.all printableIterVar && coreIters its)
 
 def coreType : PVarType → Bool
   | .boolean | .nonNegReal none none | .real none none => true
@@ -85,10 +91,10 @@ def coreProgram (m : PModel) : Bool :=
         (match c.name with | none => true | some n => coreName n)
         && coreExp c.lhs
         && (if c.logic then (c.cmp == .eq && (match c.rhs with | .bool true => true | _ => false)) else coreExp c.rhs)
-        && coreFor c.iterVars c.iters)
+        && coreFor c.iterVars c.iters && notForHead (constraintToks c))
     && m.constants.all (fun k => plainVar k.1 && coreExp k.2)
     && m.domains.all (fun d =>
-        !d.vars.isEmpty && d.vars.all coreName && coreType d.ty && coreFor d.iterVars d.iters)
+        !d.vars.isEmpty && d.vars.all coreName && coreType d.ty && coreFor d.iterVars d.iters && notForHead (domainToks d))
     && (!m.constraints.isEmpty || (m.constants.isEmpty && m.domains.isEmpty))
 
 abbrev printable := coreProgram
